@@ -228,19 +228,30 @@ pub fn run_c09(run: &mut Run) {
                 alpha.push(p);
             }
         }
+        // continuation-flagged packets whose type byte is NOT a supported type: a decoder that takes
+        // the type of a continuation from remembered state would accept them
+        for flags in [0x18u8, 0x58] {
+            let mut p = raw_frame(SRC, DST, 0x33, &[0x14, 0x14, 0xA0, 0xA1, flags]);
+            p[7] = flags;
+            fix_pec(&mut p);
+            alpha.push(p);
+        }
         let a = alpha.len() as u64;
         let total: u64 = (1..=4u32).map(|d| a.pow(d)).sum();
         let cfg = Cfg::simple(DST);
-        run.sweep_chunked("every sequence of length <= 4 over 12 vendor/SPDM packets (6 SOM/EOM/seq combinations x 2 types), decoded: outcome vs a fresh context", total, |acc, lo, hi| {
+        // the histories run on a fresh context and on one whose assigned EID equals the packets' destination EID
+        let pre: [Vec<Event>; 2] = [vec![], vec![Event::SetEidReq(DST), Event::SetEidResp(DST)]];
+        run.sweep_chunked("every sequence of length <= 4 over 14 vendor/SPDM/unsupported-type packets (SOM/EOM/seq combinations) x 2 contexts (fresh; assigned EID = destination EID), decoded: outcome vs a fresh context", total * 2, |acc, lo, hi| {
             let owned = Owned::new(&cfg);
-            for i in lo..hi {
+            for k in lo..hi {
+                let i = k / 2;
                 let mut r = i;
                 let mut len = 1u32;
                 while r >= a.pow(len) {
                     r -= a.pow(len);
                     len += 1;
                 }
-                let mut hist = vec![];
+                let mut hist = pre[(k % 2) as usize].clone();
                 for _ in 0..len {
                     hist.push(Event::Decode(alpha[(r % a) as usize].clone()));
                     r /= a;
@@ -251,7 +262,7 @@ pub fn run_c09(run: &mut Run) {
                 let j = judge_c09(&ctxs, &last, false);
                 acc.trans += 2 + hist.len() as u64;
                 acc.validated += 1;
-                acc.nontrivial(Fnv::default().u64(0x9F).u64(i).finish());
+                acc.nontrivial(Fnv::default().u64(0x9F).u64(k).finish());
                 for (kind, d) in j.viols {
                     acc.violation(len as u64, kind, d, || c09_case(&last, Some(&hist)));
                 }
@@ -304,6 +315,43 @@ pub fn run_c09(run: &mut Run) {
                 }
                 for (kind, d) in j.viols {
                     acc.violation(len as u64, kind, d, || json!({"prop": "C09", "check": "decode", "input": hex(last), "state": hist, "cfg": m.cfg}));
+                }
+            }
+        });
+    }
+    // corruptions that preserve weaker checksums, decoded right after the valid packet was decoded
+    // or processed on the same context (anything memoised about the valid one must not vouch for these)
+    {
+        let corpus = burst_corpus();
+        let small: Vec<&Vec<u8>> = corpus.iter().filter(|p| p.len() <= 64).collect();
+        let cases: Vec<(usize, Vec<u8>)> = small.iter().enumerate().flat_map(|(k, p)| weak_corruptions(p).into_iter().map(move |q| (k, q))).collect();
+        let cfg = Cfg::simple(DST);
+        run.sweep_chunked("sum-, XOR-, Fletcher- and multiset-preserving corruptions of every corpus packet <= 64 bytes, after the valid packet was decoded / processed", cases.len() as u64 * 2, |acc, lo, hi| {
+            let owned = Owned::new(&cfg);
+            for k in lo..hi {
+                let (pi, q) = &cases[(k / 2) as usize];
+                let orig = small[*pi].clone();
+                let rd = ref_decode(&orig);
+                if k % 2 == 1 && known_process(&RefEndpoint::new(&cfg), &rd, &orig).is_some() {
+                    acc.skipped_known += 1;
+                    continue;
+                }
+                if matches!(rd.class, Class::KnownPanic(_)) {
+                    acc.skipped_known += 1;
+                    continue;
+                }
+                let hist = vec![if k % 2 == 0 { Event::Decode(orig) } else { Event::Process(orig) }];
+                let ctxs = vec![owned.ctx(), build(&owned, &hist)];
+                acc.evals += 1;
+                let j = judge_c09(&ctxs, q, false);
+                if !j.executed {
+                    acc.skipped_known += 1;
+                    continue;
+                }
+                acc.trans += 3;
+                acc.validated += 1;
+                for (kind, d) in j.viols {
+                    acc.violation(3, kind, d, || json!({"prop": "C09", "check": "decode", "input": hex(q), "state": hist, "cfg": cfg}));
                 }
             }
         });
@@ -1039,6 +1087,28 @@ pub fn run_c02(run: &mut Run) {
             }
         }
     });
+    // (a') corruptions that preserve weaker checksums (byte sum, XOR, Fletcher sums, byte multiset)
+    {
+        let small: Vec<&Vec<u8>> = corpus.iter().filter(|p| p.len() <= 64).collect();
+        let cases: Vec<(usize, Vec<u8>)> = small.iter().enumerate().flat_map(|(k, p)| weak_corruptions(p).into_iter().map(move |q| (k, q))).collect();
+        run.bound("weak_checksum_preserving_corruptions", cases.len() as u64);
+        run.sweep_chunked("sum-, XOR-, Fletcher- and multiset-preserving corruptions of every corpus packet <= 64 bytes x 2 contexts (incl. after the valid packet)", cases.len() as u64 * 2, |acc, lo, hi| {
+            let owned: Vec<Owned> = specs.iter().map(|s| Owned::new(&s.cfg)).collect();
+            for k in lo..hi {
+                let si = (k % 2) as usize;
+                let (pi, q) = &cases[(k / 2) as usize];
+                acc.evals += 1;
+                let (v, calls, _) = judge_c02_after(&specs[si], &owned[si], q, Some(small[*pi]));
+                acc.trans += calls;
+                acc.validated += 1;
+                acc.nontrivial(crate::engine::fp_bytes(0x2E, q));
+                acc.outcome2("weak-checksum", if v.is_empty() { "rejected-state-unchanged" } else { "violation" });
+                for d in v {
+                    acc.violation(3, "weak-checksum-preserving", d, || json!({"prop": "C02", "check": "input", "spec": specs[si], "input": hex(q), "orig": hex(small[*pi])}));
+                }
+            }
+        });
+    }
     // (b) wrong-PEC cases of the deviation spaces
     let t1 = space_t1();
     run.sweep_chunked(&format!("wrong-PEC cases of [{}] x 2 contexts, cheap check", t1.name), t1.n() * 2, |acc, lo, hi| {
